@@ -33,6 +33,13 @@ fn prose(kind: &str, n: usize) -> String {
     "break" => "***\n".to_string(),
     "table" => "| Name | Value |\n|------|-------|\n| x    | 12    |\n".to_string(),
     "code" => "```python\nx = 99\ny = x + 1\n```\n".to_string(),
+    // code blocks that are not Mech code, whatever they contain: no code identifier, tilde fences, another language
+    "code-bare" => "```\nx = 99\n```\n".to_string(),
+    "code-bare-def" => "```\n~x := 5\ny := 6\n```\n".to_string(),
+    "code-tilde" => "~~~\nx = 98\n~~~\n".to_string(),
+    "code-tilde-lang" => "~~~rust\nlet x = 97;\n~~~\n".to_string(),
+    "code-ebnf" => "```ebnf\nX := A | B, C ;\n```\n".to_string(),
+    "code-shell" => "```\n$ cargo build --release\n```\n".to_string(),
     "comment" => "-- a comment line about x\n".to_string(),
     _ => "Plain prose.\n".to_string(),
   }
@@ -116,7 +123,8 @@ pub fn generate(seed: u64, thorough: bool, sink: &mut Sink) -> Vec<String> {
   let mut rng = Rng::new(seed);
   let mut cases = vec![];
   let n = if thorough { 20000 } else { 1500 };
-  let prose_kinds = ["title", "section", "para", "list", "quote", "break", "table", "code", "comment"];
+  let prose_kinds = ["title", "section", "para", "list", "quote", "break", "table", "code", "comment",
+    "code-bare", "code-bare-def", "code-tilde", "code-tilde-lang", "code-ebnf", "code-shell"];
   let ns_names = ["alpha", "beta", "gamma"];
   for _ in 0..n {
     let len = 3 + rng.below(if thorough { 14 } else { 9 }) as usize;
